@@ -38,6 +38,10 @@ type Case struct {
 	After   int    `json:"after"`   // messages sent after the fault healed
 	Garbage int    `json:"garbage"` // inject-body: length of the undecodable body
 	At      int    `json:"at"`      // inject before this frame
+	// refuse, second outage (0 = none): after the first outage was survived by retrying and the link has carried
+	// traffic again, the connection is dropped and this many connection attempts are refused; 1 failed write +
+	// Refuse2 refused attempts stay within the limit, so nothing may be given up
+	Refuse2 int `json:"refuse2,omitempty"`
 }
 
 func (c Case) JSON() string { b, _ := json.Marshal(c); return string(b) }
@@ -82,6 +86,12 @@ func genCase(t *rapid.T) Case {
 		}
 	case "refuse":
 		c.Refuse = rapid.IntRange(1, 5).Draw(t, "refuse")
+		if rapid.Bool().Draw(t, "secondOutage") {
+			// a retry budget that is spent and given back: limits with room for two outages
+			c.Limit = rapid.SampledFrom([]int{3, 2, 4}).Draw(t, "limit2")
+			c.Refuse = rapid.IntRange(1, c.Limit).Draw(t, "refuse1")
+			c.Refuse2 = rapid.IntRange(1, c.Limit-1).Draw(t, "refuse2")
+		}
 	case "inject-body":
 		c.Garbage = rapid.SampledFrom([]int{1, 3, 17, 200, 5000}).Draw(t, "garbage")
 		c.At = rapid.IntRange(0, c.Frames-1).Draw(t, "at")
@@ -397,6 +407,39 @@ func run(c Case) (v *verdict, inconclusive string, nontrivial bool, labels []str
 				return &verdict{"C14/recovery|later-messages", fmt.Sprintf("message %d, sent after the peer had become reachable again, was not delivered; sender events %+v; case %s", s, l.A.Events.Snapshot(), c.JSON())}, "", true, labels
 			}
 		}
+		if c.Refuse2 > 0 {
+			labels = append(labels, "second-outage")
+			var pl []rlab.ConnPlan
+			for i := 0; i < c.Refuse2; i++ {
+				pl = append(pl, rlab.ConnPlan{Refuse: true})
+			}
+			pl = append(pl, rlab.ConnPlan{Mode: "exact", CutAfter: -1})
+			l.proxy.SetPlans(pl...)
+			l.proxy.DropAll()
+			time.Sleep(300 * time.Millisecond)
+			var second []int64
+			for i := 0; i < 3; i++ {
+				second = append(second, seq)
+				sizes[seq] = 10
+				seq++
+			}
+			go func() { // one goroutine: the order of the Tells is the order of the sequence numbers (a Tell may block, KF-C14-1)
+				for _, s := range second {
+					l.A.Sys.Tell(target, &rlab.Msg{Sender: sender, Seq: s, Kind: rlab.KData, Body: rlab.Body(sender, s, 10)})
+					time.Sleep(200 * time.Millisecond)
+				}
+			}()
+			last := second[len(second)-1]
+			rlab.WaitUntil(10*time.Second, func() bool { return delivered(l.B, last) || deadLettered(l.A, last) > 0 })
+			for _, s := range second {
+				if dl := deadLettered(l.A, s); dl > 0 {
+					return &verdict{"C14/retry-limit", fmt.Sprintf("second outage on the same peer: the connection was dropped and %d connection attempts were refused; with one failed write that is at most %d failed attempts, the limit is %d (= %d attempts), yet message %d was given up as a dead letter (the first outage had been survived after %d refusals); sender events %+v; case %s", c.Refuse2, c.Refuse2+1, c.Limit, c.Limit+1, s, c.Refuse, l.A.Events.Snapshot(), c.JSON())}, "", true, labels
+				}
+			}
+			if !delivered(l.B, last) {
+				return &verdict{"C14/recovery|later-messages", fmt.Sprintf("second outage on the same peer (%d refused attempts, limit %d): message %d, sent when the peer was reachable again, was not delivered within 10 s; sender events %+v; case %s", c.Refuse2, c.Limit, last, l.A.Events.Snapshot(), c.JSON())}, "", true, labels
+			}
+		}
 	case "restart":
 		nontrivial = true
 		for _, sz := range c.Sizes {
@@ -469,6 +512,19 @@ func ensureOverhead(t interface{ Fatalf(string, ...any) }) {
 			t.Fatalf("harness: calibration failed: %v", err)
 		}
 	}
+}
+
+// TestC14TwoOutages: only the two-outage shape of the refuse kind (the retry budget of one peer is spent, given back,
+// and needed again), which the mixed generator draws too rarely for the quick tier.
+func TestC14TwoOutages(t *testing.T) {
+	ensureOverhead(t)
+	rapid.Check(t, func(rt *rapid.T) {
+		c := Case{Kind: "refuse", Frames: 3, Sizes: []int{rapid.SampledFrom([]int{0, 10, 1000}).Draw(rt, "size"), 1, 1}, After: rapid.IntRange(1, 3).Draw(rt, "after")}
+		c.Limit = rapid.SampledFrom([]int{3, 2, 4}).Draw(rt, "limit")
+		c.Refuse = rapid.IntRange(1, c.Limit).Draw(rt, "refuse1")
+		c.Refuse2 = rapid.IntRange(1, c.Limit-1).Draw(rt, "refuse2")
+		check(rt.Fatalf, c)
+	})
 }
 
 func TestC14Faults(t *testing.T) {
